@@ -319,9 +319,26 @@ struct FfiRes {
     untouched: bool,
 }
 
+thread_local! {
+    /// the most recent non-empty output buffer the FFI handed out on this thread (address, length,
+    /// bytes at that time): the FFI passes ownership of its output to the caller, so a later call
+    /// must not change what an earlier buffer designates
+    static PREV_OUT: std::cell::RefCell<Option<(usize, usize, Vec<u8>)>> = const { std::cell::RefCell::new(None) };
+    static PREV_OUT_BROKEN: std::cell::RefCell<Option<String>> = const { std::cell::RefCell::new(None) };
+}
+
 fn with_out(g: impl FnOnce(*mut Buffer) -> bool) -> FfiRes {
     let mut ob = Buffer { ptr: SENTINEL.as_ptr(), len: SENT_LEN };
     let flag = g(&mut ob as *mut Buffer);
+    // an earlier output must still read the same after this call
+    PREV_OUT.with(|p| {
+        if let Some((addr, len, bytes)) = p.borrow().as_ref() {
+            let now = unsafe { std::slice::from_raw_parts(*addr as *const u8, *len) };
+            if now != &bytes[..] {
+                PREV_OUT_BROKEN.with(|b| *b.borrow_mut() = Some(format!("an output buffer handed out by an earlier FFI call ({} bytes at {:#x}) reads differently after this call", len, addr)));
+            }
+        }
+    });
     let untouched = ob.ptr == SENTINEL.as_ptr() && ob.len == SENT_LEN;
     if flag {
         if untouched {
@@ -329,6 +346,9 @@ fn with_out(g: impl FnOnce(*mut Buffer) -> bool) -> FfiRes {
         }
         // pointer and length must designate readable bytes
         let bytes = if ob.len == 0 { vec![] } else { unsafe { std::slice::from_raw_parts(ob.ptr, ob.len) }.to_vec() };
+        if ob.len > 0 {
+            PREV_OUT.with(|p| *p.borrow_mut() = Some((ob.ptr as usize, ob.len, bytes.clone())));
+        }
         FfiRes { flag, out: Out::Bytes(bytes), untouched }
     } else {
         FfiRes { flag, out: Out::Unit, untouched }
@@ -721,6 +741,8 @@ fn run_case(case: &Case, base: &std::path::Path, o: &mut Outcome) {
         vfail!(o, "ffi::new({depth}, {{}}) reported {flag} (context {:?}) although RLN::new succeeds", a);
         return;
     }
+    PREV_OUT.with(|p| *p.borrow_mut() = None);
+    PREV_OUT_BROKEN.with(|b| *b.borrow_mut() = None);
     let mut pair = Pair { a, b: Some(b), depth, last: None };
     let mut failed_then_ok = false;
     let mut had_failure = false;
@@ -984,6 +1006,10 @@ fn run_case(case: &Case, base: &std::path::Path, o: &mut Outcome) {
         }
         let ra = ffi_call(pair.a, c, &x);
         o.evals += 1;
+        if let Some(msg) = PREV_OUT_BROKEN.with(|b| b.borrow_mut().take()) {
+            vfail!(o, "step {step} {k}: {msg}");
+            return;
+        }
         let desc = || format!("step {step} {k}(index {}, arg1 {}, arg2 {})", x.i, hex(&x.a), hex(&x.b));
         // ---- success flag ---------------------------------------------------------------------
         if ra.flag != rb.is_ok() {
@@ -1215,7 +1241,7 @@ impl Property for C11 {
     }
     fn rule(&self) -> String {
         "histories of up to 16 calls over the whole extern \"C\" surface (tree mutators incl. atomic / sequential batches and batch initialisation, getters, metadata, flush, set_tree, new / new_with_params incl. non-temporary trees at a location per surface, refused configurations, and drop + re-construction with the same configuration, key generation seeded and unseeded, hash, poseidon_hash, verify / verify_rln_proof / verify_with_roots / recover_id_secret on golden, mutated, truncated and random messages, and — at depth 20 — set_leaf + generate_rln_proof / generate_rln_proof_with_witness / prove) with valid and malformed buffers; instance A only through rln::ffi, instance B only through rln::public::RLN, same arguments. \
-         Per call: flag == is_ok; output bytes equal (randomised outputs: same length, same public values, cross-verified); failed call leaves out-parameters untouched; afterwards root, leaf count, probed leaves, metadata and a membership proof read through the FFI equal those read through the Rust API. Calls for which the Rust API panics end the history and are counted under excluded_known (outside the quantifier). \
+         Per call: flag == is_ok; output bytes equal (randomised outputs: same length, same public values, cross-verified); failed call leaves out-parameters untouched; an output buffer handed out earlier still reads the same after later calls; afterwards root, leaf count, probed leaves, metadata and a membership proof read through the FFI equal those read through the Rust API. Calls for which the Rust API panics end the history and are counted under excluded_known (outside the quantifier). \
          non-trivial = history with a failing call followed by a succeeding one, or a sequential batch on a tree with leaves_set > 0; distinct by case content".into()
     }
     fn assumptions(&self) -> Vec<String> {
